@@ -208,6 +208,7 @@ fn run_history(ctx: &mut Ctx, r: &mut Rng) {
     let steps = ctx.tier.n(20, 40) as usize;
     let run = |r: &mut Rng| -> Option<(String, u64, Vec<(usize, String)>, usize)> {
         let mut h = Hist::new(r, &cfg, false).ok()?;
+        h.track_slots = false;
         for _ in 0..steps {
             if !h.failures.is_empty() {
                 break;
